@@ -209,7 +209,7 @@ func (m *monitor) check(stage, class string, f *fileCase, ids []ident, info map[
 	}
 
 	// the kind of reader the caller holds the file in rotates from case to case
-	kind := ax.SourceKinds[int(heldIn.Add(1))%len(ax.SourceKinds)]
+	kind := ax.SourceKindsOwnFiles[int(heldIn.Add(1))%len(ax.SourceKindsOwnFiles)]
 	raw := f.bin
 	if f.armored() {
 		raw = f.text
